@@ -126,6 +126,15 @@ Theorem C10_cv_vector_minus : forall ords intfs mvs lm1 cap l,
 Proof. exact cv_vector_minus. Qed.
 Print Assumptions C10_cv_vector_minus.
 
+(* a valid [0-] path — with lambda_minus_one absent (R -> R below lambda_0) or ANY number
+   (0 included; ends L->L, L->R, R->L or R->R, interior inside [lambda_-1, lambda_0]) — has the
+   weight vector (1,), whether or not it reaches lambda_0 *)
+Theorem C10_cv_vector_valid_minus_path : forall ords lam0 irest mvs lm1 cap,
+  minus_path lm1 lam0 ords ->
+  calc_cv_vector ords (lam0 :: irest) mvs lm1 cap true = Some [1%Z].
+Proof. exact cv_vector_minus_valid. Qed.
+Print Assumptions C10_cv_vector_valid_minus_path.
+
 (* ---- segment choice *)
 
 Theorem C10_pick_interval : forall left right ords u sg,
@@ -165,6 +174,39 @@ Theorem C10_seed_frames : forall (l : list Z) s e n,
 Proof. exact (@seg_frames_spec Z). Qed.
 Print Assumptions C10_seed_frames.
 
+(* the returned segment: exactly one valid sub-path with its two end points, frame t of
+   the segment being frame s + t of the path, for every path that respects its own limit
+   (len(path) <= path.maxlen, or path.maxlen None); the model reads no other length limit
+   (tis_set.maxlength is not an argument) and the weight does not depend on any *)
+Theorem C10_pick_seed_exact : forall (A : Type) left right ords (frames : list A) pmaxlen u sg seed,
+  length frames = length ords ->
+  (pmaxlen = None \/ exists m, pmaxlen = Some m /\ length ords <= m) ->
+  wf_pick_seed left right ords frames pmaxlen u = Some (sg, seed) ->
+  let '(s, e, n) := sg in
+  valid_seg left right ords s e n /\ wf_pick left right ords u = Some (s, e, n) /\
+  length seed = n + 2 /\
+  forall t, t <= n + 1 -> nth_error seed t = nth_error frames (s + t).
+Proof. exact (@wf_pick_seed_exact). Qed.
+Print Assumptions C10_pick_seed_exact.
+
+(* a container limit of at least n + 2 (or none) keeps the whole sub-path ... *)
+Theorem C10_seed_whole : forall (A : Type) pmaxlen (l : list A) s e n,
+  e = s + n + 1 -> e < length l ->
+  (pmaxlen = None \/ exists m, pmaxlen = Some m /\ n + 2 <= m) ->
+  wf_seed pmaxlen (s, e, n) l = seg_frames (s, e, n) l.
+Proof. exact (@wf_seed_whole). Qed.
+Print Assumptions C10_seed_whole.
+
+(* ... any smaller one (e.g. the ensemble's current maxlength in place of path.maxlen) returns
+   the first m frames only: not the exit frame, not a valid sub-path *)
+Theorem C10_seed_smaller_limit_refuted : forall (A : Type) m (l : list A) s e n,
+  e = s + n + 1 -> e < length l -> m < n + 2 ->
+  length (wf_seed (Some m) (s, e, n) l) = m /\
+  (forall t, t < m -> nth_error (wf_seed (Some m) (s, e, n) l) t = nth_error l (s + t)) /\
+  wf_seed (Some m) (s, e, n) l <> seg_frames (s, e, n) l.
+Proof. exact (@wf_seed_truncated). Qed.
+Print Assumptions C10_seed_smaller_limit_refuted.
+
 (* ---- high-acceptance swap *)
 
 Theorem C10_high_acc_ratio : forall c1o c2o c1n c2n : Z,
@@ -197,3 +239,27 @@ Proof.
   split; [apply wf_segments_valid; vm_compute; left; reflexivity|].
   repeat split; vm_compute; reflexivity.
 Qed.
+
+(* ---- non-vacuity for the [0-] clause: lambda_minus_one = 0 is a number, not "absent".  An
+   L -> L path that never reaches lambda_0 = 5 is a valid [0-] path for lambda_minus_one = 0 and
+   has the weight vector (1,); reading 0 as "absent" would give (0,) *)
+Example C10_example_lambda_minus_one_zero :
+  let ords := [-1; 2; 3; 2; -1]%Z in
+  minus_path (Some 0%Z) 5 ords /\
+  calc_cv_vector ords [5; 10; 20]%Z [] (Some 0%Z) None true = Some [1%Z] /\
+  calc_cv_vector ords [5; 10; 20]%Z [] None None true = Some [0%Z].
+Proof.
+  cbv zeta. split.
+  - exists (-1)%Z, [2; 3; 2]%Z, (-1)%Z. split; [reflexivity|]. split; [discriminate|].
+    split; [left; lia|]. split; [left; lia|]. repeat constructor; lia.
+  - split; vm_compute; reflexivity.
+Qed.
+
+(* ---- non-vacuity for the seed: path A B B B B A with path.maxlen 6: the seed is the whole
+   path (6 frames) for every u; a container of 4 frames would drop the exit frame *)
+Example C10_example_seed :
+  let ords := [5; 12; 13; 14; 15; 6]%Z in
+  wf_pick_seed 10 20 ords [0; 1; 2; 3; 4; 5] (Some 6) (1 # 2) = Some ((0, 5, 4), [0; 1; 2; 3; 4; 5]) /\
+  wf_pick_seed 10 20 ords [0; 1; 2; 3; 4; 5] None (1 # 2) = Some ((0, 5, 4), [0; 1; 2; 3; 4; 5]) /\
+  wf_seed (Some 4) (0, 5, 4) [0; 1; 2; 3; 4; 5] = [0; 1; 2; 3].
+Proof. cbv zeta. repeat split; vm_compute; reflexivity. Qed.
